@@ -66,6 +66,9 @@ type Kind struct {
 	// Class is the coarse operand kind used in violation signatures (several Kinds that differ only in
 	// the shape of op0 share a Class); empty: Name.
 	Class string
+	// ClassOf, when set, overrides Class per environment (a defect that exists only for some parameter
+	// shapes — e.g. two or more special primes — must not share a signature with the other shapes).
+	ClassOf func(e *Env) string
 	Names []string // argument names, for messages
 	// Make returns fresh inputs; the content must be a pure function of (e, g).
 	Make func(e *Env, g *Gen) []interface{}
